@@ -1,6 +1,6 @@
 (* The statement of LinSolve._response that wraps the module's solver in an LDAWrapper, regenerated from the source on
    every run (GenC06.GlueGen, tools/gen_C06.py: condition, keyword table, tolerance expression read from the solver
-   BEFORE it is replaced, default tolerance of LDAWrapper.__init__, acceptance test of _do_solve_1rhs), is the
+   BEFORE it is replaced, default tolerance of LDAWrapper.__init__, acceptance test and per-column storage test of _do_solve_1rhs), is the
    committed model Model/LdaGlue.v for ALL arguments, and the tolerance theorems hold for the regenerated definitions. *)
 From Coq Require Import QArith ZArith List Bool Lqa.
 From Pymoto Require Import Model.LdaGlue Proofs.LdaGlueP.
@@ -26,6 +26,18 @@ Proof. destruct it as [t|]; unfold gen_wrapper_tol, linsolve_wrapper_tol, gen_de
 
 Lemma gen_needs_inner_eq tol res : gen_needs_inner tol res = needs_inner tol res.
 Proof. reflexivity. Qed.
+
+(* the storage test of a freshly solved column, with the column's own norm as reference (equal as a function: robust
+   against re-association of the product) *)
+Lemma gen_stored_eq tol bnrm bnrm0 : gen_stored tol bnrm bnrm0 = stored tol bnrm bnrm0.
+Proof.
+  unfold gen_stored. destruct (stored tol bnrm bnrm0) eqn:E; [apply stored_true in E | apply stored_false in E].
+  - apply negb_true_iff. destruct (Qle_bool bnrm _) eqn:F; [|reflexivity]. apply Qle_bool_iff in F. exfalso. lra.
+  - apply negb_false_iff. apply Qle_bool_iff. lra.
+Qed.
+
+Theorem gen_stored_scale tol s bnrm bnrm0 : 0 < s -> gen_stored tol (s * bnrm) (s * bnrm0) = gen_stored tol bnrm bnrm0.
+Proof. intros Hs. rewrite !gen_stored_eq. now apply stored_scale. Qed.
 
 (* the theorems of Props/C06.v restated on the regenerated definitions *)
 Theorem gen_inner_solution_recognised t res : 0 <= res -> res <= t -> gen_needs_inner (gen_wrapper_tol (Some t)) res = false.
